@@ -603,7 +603,10 @@ def _uses_file(e):
         return not e.d.get("modelled")
     if e.d["recv"] == FILE and e.d["attr"] not in ("flush", "tell", "seek", "close", "fileno", "isatty", "writable"):
         return True
-    return any(a == FILE for a in list(e.d["args"]) + list(e.d["kws"].values()))
+    vals = list(e.d["args"]) + list(e.d["kws"].values())
+    if e.d["name"] in ("functools.partial", "partial"):
+        return False                # binding the file to a function writes nothing: the calls made through the partial object are events of their own
+    return any(a == FILE or (isinstance(a, tuple) and a[:1] == ("partial",) and M.mentions(a, FILE)) for a in vals)
 
 
 def to_lines(toks):
@@ -646,6 +649,10 @@ def _pair_source(args, head, N):
         return None
     it = head.d["iter"]
     tgt = head.d["target"]
+    if isinstance(it, tuple) and it[:1] == ("comp",) and len(it) == 5 and head.d.get("index") is not None:
+        # a loop over generated items (`for text in map(form.format, a, b)`): the items are produced from what the generator iterates
+        tgt = M.subst(it[3], ("sym", f"<k>@L{it[4]}"), lin(head.d["index"]))
+        it = it[2]
     bases, los, his = [], [], []
     for a in args:
         if not (isinstance(a, tuple) and a[:1] == ("elem",)):
